@@ -709,4 +709,94 @@ Proof.
     + intros a b Hab. now apply disjoint_one_zero.
     + apply (reduce_disjoint S fs Hok).
 Qed.
+(* every output Field lies inside the output window *)
+Lemma prop_field_extent oe Pro Pco alpha sh (f g : field S) :
+  evalid oe -> 0 < Pro -> 0 < Pco -> prop_field sq oe Pro Pco alpha sh f = Ok (Some g) ->
+  esub (fextent g) oe /\ exists a ar ac, fd f = D2 a /\ alpha = Some (ar, ac).
+Proof.
+  intros Hv HP1 HP2. unfold prop_field.
+  set (fr := qfix (fst sh)). set (fc := qfix (snd sh)).
+  destruct (intersect oe (array_extent Pro Pco fr fc)) eqn:Ei; [|discriminate].
+  destruct (prop_window oe Pro Pco fr fc Hv HP1 HP2 Ei)
+    as (r1 & r2 & c1 & c2 & Ir & Ic & isr & isc & Hie & Hsh & HIr & HIc & Hsf & Hae & _ & _).
+  rewrite Hsh, Hsf.
+  destruct (array_center (array_extent Pro Pco fr fc)) as [pcr pcc].
+  destruct (array_center (array_extent Ir Ic isr isc)) as [icr icc].
+  destruct alpha as [[ar ac]|]; [|discriminate]. destruct (fd f) as [v|a]; [discriminate|].
+  destruct (dft2_shape S sq a ar ac Ir Ic (zq (pcr - icr) + (fst sh - zq fr))%Qc
+              (zq (pcc - icc) + (snd sh - zq fc))%Qc (offr f) (offc f) true) as [E1 E2].
+  set (D := dft2 sq a ar ac Ir Ic (zq (pcr - icr) + (fst sh - zq fr))%Qc
+              (zq (pcc - icc) + (snd sh - zq fc))%Qc (offr f) (offc f) true) in *. clearbody D.
+  intros H. injection H as <-. split; [|exists a, ar, ac; split; reflexivity].
+  unfold fextent. cbn [fd dshape offr offc].
+  rewrite E1, E2, Hae. destruct oe as [[[o1 o2] o3] o4].
+  unfold intersection_extent, array_extent in Hie. injection Hie as <- <- <- <-. unfold esub. lia.
+Qed.
+
+Lemma prop_fields_extent shift_of oe Pro Pco alpha (fs : list (field S)) :
+  evalid oe -> 0 < Pro -> 0 < Pco -> forall l, prop_fields sq shift_of oe Pro Pco alpha fs = Ok l ->
+  forall g, In g l -> esub (fextent g) oe.
+Proof.
+  intros Hv H1 H2. induction fs as [|f r IH]; intros l; cbn [prop_fields].
+  - intros H. injection H as <-. intros g [].
+  - destruct (prop_field sq oe Pro Pco alpha (shift_of f) f) as [o|e] eqn:Ef; cbn [rbind]; [|discriminate].
+    destruct (prop_fields sq shift_of oe Pro Pco alpha r) as [l'|e] eqn:El; cbn [rbind]; [|discriminate].
+    intros H. injection H as <-. intros g Hg. destruct o as [g0|].
+    + destruct Hg as [<-|Hg]; [exact (proj1 (prop_field_extent _ _ _ _ _ _ _ Hv H1 H2 Ef))|now apply (IH l')].
+    + now apply (IH l').
+Qed.
+
+Lemma mask_bbox_in_array mask Ro Co b : 0 < Ro -> 0 < Co ->
+  (forall m, mask = Some m -> mnr m = Ro /\ mnc m = Co) -> mask_bbox mask Ro Co = Ok b ->
+  let '(r1, r2, c1, c2) := b in 0 <= r1 /\ r1 <= r2 /\ r2 < Ro /\ 0 <= c1 /\ c1 <= c2 /\ c2 < Co.
+Proof.
+  intros HR HC Hm Hb. destruct mask as [m|]; cbn [mask_bbox] in Hb.
+  - destruct (Hm m eq_refl) as [<- <-]. destruct b as [[[r1 r2] c1] c2].
+    destruct (mask_boundary_spec _ _ _ _ _ Hb) as (A1 & A2 & A3 & A4 & A5 & A6 & _). lia.
+  - injection Hb as <-. lia.
+Qed.
+
+(* Wavefront.intensity of the propagated wavefront is |Wavefront.field|^2 at every sample *)
+Theorem propagate_dft_intensity shift_of (w : wavefront S) dur duc shape pshape os mask dxr dxc Sr Sc Pr Pc b :
+  wptype w <> PtNone -> wps w = Some (dxr, dxc) ->
+  (forall f, In f (wdata w) -> exists a, fd f = D2 a) ->
+  match shape with None => wshape w | Some s => s end = (Sr, Sc) ->
+  match pshape with None => (Sr, Sc) | Some p => p end = (Pr, Pc) ->
+  0 < Sr -> 0 < Sc -> 0 < Pr -> 0 < Pc -> 1 <= os -> Sr * os < maxsize -> Sc * os < maxsize ->
+  (forall m, mask = Some m -> mnr m = Sr * os /\ mnc m = Sc * os) ->
+  mask_bbox mask (Sr * os) (Sc * os) = Ok b ->
+  exists w' o oi, propagate_dft sq shift_of w dur duc shape pshape os mask = Ok w' /\
+    wfield w' = Ok o /\ wintensity w' = Ok oi /\ nr oi = Sr * os /\ nc oi = Sc * os /\
+    (forall i j, 0 <= i < Sr * os -> 0 <= j < Sc * os -> get oi i j = norm2 (get o i j)).
+Proof.
+  intros Hpt Hps Hd Hshape Hpshape HSr HSc HPr HPc Hos HbR HbC Hm Hb.
+  set (ar := dft_alpha1 dxr dur (wwl w) (wfocal w) os). set (ac := dft_alpha1 dxc duc (wwl w) (wfocal w) os).
+  assert (HRo : 0 < Sr * os) by nia. assert (HCo : 0 < Sc * os) by nia.
+  assert (HPro : 0 < Pr * os) by nia. assert (HPco : 0 < Pc * os) by nia.
+  destruct (out_extent_spec (Sr * os) (Sc * os) mask b HRo HCo Hm Hb) as (oe & Hoe & Hv & Hin).
+  pose proof (mask_bbox_in_array mask (Sr * os) (Sc * os) b HRo HCo Hm Hb) as Hbb.
+  destruct (prop_fields_spec shift_of oe (Pr * os) (Pc * os) ar ac (wdata w) Hv HPro HPco Hd) as (l & Hl & Sl & El).
+  pose proof (prop_fields_extent shift_of oe (Pr * os) (Pc * os) (Some (ar, ac)) (wdata w) Hv HPro HPco l Hl) as Xl.
+  destruct (render_spec l (Sr * os) (Sc * os) HRo HCo Sl) as (o & Ho & N & M & G).
+  assert (Hoeb : esub oe (- ((Sr * os) / 2), Sr * os - 1 - (Sr * os) / 2, - ((Sc * os) / 2), Sc * os - 1 - (Sc * os) / 2)).
+  { destruct oe as [[[o1 o2] o3] o4]. destruct b as [[[r1 r2] c1] c2]. cbn in Hv.
+    pose proof (Hin (o1 + (Sr * os) / 2) (o3 + (Sc * os) / 2)) as C1.
+    pose proof (Hin (o2 + (Sr * os) / 2) (o4 + (Sc * os) / 2)) as C2.
+    unfold inE, inb in C1, C2. unfold esub.
+    set (h1 := (Sr * os) / 2) in *. set (h2 := (Sc * os) / 2) in *. clearbody h1 h2. lia. }
+  assert (Hfb : forall g, In g l -> sized g /\ fbounded S g).
+  { intros g Hg. split; [now apply Sl|]. specialize (Xl g Hg). unfold fbounded.
+    destruct (fextent g) as [[[g1 g2] g3] g4]. destruct oe as [[[o1 o2] o3] o4]. unfold esub in *.
+    set (h1 := (Sr * os) / 2) in *. set (h2 := (Sc * os) / 2) in *.
+    assert (0 <= h1 <= Sr * os) by (subst h1; lia). assert (0 <= h2 <= Sc * os) by (subst h2; lia).
+    clearbody h1 h2. lia. }
+  destruct (intensity_is_norm2_field l (Sr * os) (Sc * os) HRo HCo Hfb) as (oi & Hoi & Ni & Mi & Gi).
+  assert (Hfin : forall i j, 0 <= i < Sr * os -> 0 <= j < Sc * os -> get oi i j = norm2 (get o i j)).
+  { intros i j Hi Hj. rewrite Gi, G by assumption. reflexivity. }
+  unfold propagate_dft.
+  destruct (wptype w) eqn:Ept; [congruence| |]; cbn [propagate_ptype rbind];
+    rewrite Hshape, Hpshape, Hoe; cbn [rbind]; rewrite Hps; fold ar ac; rewrite Hl; cbn [rbind];
+    (eexists; exists o, oi; split; [reflexivity|]); unfold wfield, wintensity; cbn [wdata wshape fst snd];
+    (split; [exact Ho|]); (split; [exact Hoi|]); (split; [exact Ni|]); (split; [exact Mi|]); exact Hfin.
+Qed.
 End PropagateP.
